@@ -79,7 +79,7 @@ def tasks_c01(tier, seed):
 
 
 def tasks_c03(tier, seed):
-    ts = []
+    ts = seq("c03s", tier, shards=4)
     scens = ["S1", "S2", "S3Reset", "S3ResetAll", "S3TokenEvent", "S3TokenEventWithID", "S3TokenReset", "S4", "S4q", "S6", "S7", "S8", "S8r", "Q6",
              "QEshutdown", "QEshutdownBusy"]
     if tier == "quick":
@@ -308,7 +308,7 @@ MANIFEST_TEXT = {
             "level": "Same exploration as C01 with an exactly-once / submission-order oracle evaluated at quiescence on every execution.",
             "note": "Same trusted base as C01; order is required only between submissions ordered by happens-before in the scenario."},
     "C03": {"engine": E1, "technique": "stateless model checking of the implementation: preemption-bounded DFS, deadlock detection on every schedule",
-            "level": "Every interleaving (up to the bound) of Shutdown against With calls, deliveries, publishing API calls, a running callback, subscription failure and restart; deadlock, panics, worker survival, callback-after-return and Close count are checked on every execution.",
+            "level": "Every interleaving (up to the bound) of Shutdown against With calls, deliveries, publishing API calls, a running callback, subscription failure and restart; deadlock, panics, worker survival, callback-after-return and Close count are checked on every execution. In addition every life-cycle sequence of <=5 (6) operations {Serve, failing Serve, refused ListenAndServe, Shutdown, probe request, With} is compared step by step with the {stopped, started} reference machine (explicit-state, 11 699 sequences).",
             "note": "Shutdown is called from outside callbacks; the in-memory connection models NATS delivery; nil-dereference windows between non-visible operations are the domain of C16."},
     "C04": {"engine": "seq", "technique": "bounded-exhaustive enumeration of handler scripts x request kinds x registrations x payloads on the real service under the scheduler (exact quiescence)",
             "level": "Every request kind, registration shape, payload and handler behaviour script up to the length bound runs on a fresh real service; the number of responses is counted after exact quiescence and a probe request checks liveness.",
